@@ -1325,7 +1325,8 @@ class RawAlgorithmsMixIn:
         (xbar_data, ybar_data) = out
 
         xbar_data += cls._dot(zbar_data, y_data, out = xbar_data.copy())
-        ybar_data += cls._dot(zbar_data, x_data, out = ybar_data.copy())
+        # z = x y^T  =>  ybar = zbar^T x  (zbar itself only for symmetric zbar)
+        ybar_data += cls._dot(cls._transpose(zbar_data), x_data, out = ybar_data.copy())
 
         return out
 
